@@ -1,6 +1,11 @@
 //! C10: every backend gives bit-identical results.  Each base record of C07 (DFT-domain ops inside the common
 //! magnitude domain), C08 (kernels and vector-level normalise/shift) and C09 (ring operations) is executed on
 //! FFT64Ref, FFT64Avx, NTT120Ref, NTT120Avx; opcode 100000 + op; outputs = FFT64Ref's outputs + [eq flags].
+//! Records whose operands only exist in the i128 big accumulators of the NTT120 family (opcode 200000 + op) run on
+//! NTT120Ref and NTT120Avx; outputs = NTT120Ref's outputs + [eq flag].
+//! Sampling records (opcode 300000 + k): one sampler call on the four backends from the same seed; outputs =
+//! [result equal to FFT64Ref's (x3), random stream position afterwards equal (x3)] -- the sampled values themselves are
+//! not modelled (the stream is an input), the statement "sampling consumes the random stream identically" is.
 #![allow(dead_code)]
 #[path = "c07.rs"]
 mod c07;
@@ -9,14 +14,69 @@ mod c08;
 #[path = "c09.rs"]
 mod c09;
 
+use poulpy_hal::api::*;
+use poulpy_hal::layouts::*;
+use poulpy_hal::source::Source;
+use poulpy_verif_harness::hal::*;
 use poulpy_verif_harness::rec::*;
+use poulpy_verif_harness::with_be;
 
 fn base_exec(r: &Rec) -> Out {
     let c = r.code;
     if (7000..8000).contains(&c) { c07::exec(r) } else if (8000..9000).contains(&c) { c08::exec(r) } else { c09::exec(r) }
 }
 
+/// one sampler call: header [0, n, cols, size, col, base2k, k, sigma*1000, bound*1000, seed]; returns (result words, next 32 stream bytes)
+fn sample(k: i64, be: i128, p: &[i128]) -> (Vec<i128>, Vec<i128>) {
+    let (n, cols, size, col, base2k) = (p[1] as usize, p[2] as usize, p[3] as usize, p[4] as usize, p[5] as usize);
+    let noise = NoiseInfos::new(p[6] as usize, p[7] as f64 / 1000.0, p[8] as f64 / 1000.0).unwrap();
+    let mut seed = [0u8; 32];
+    seed[..16].copy_from_slice(&p[9].to_le_bytes());
+    let mut src = Source::new(seed);
+    with_be!(be, BE, {
+        let m = module::<BE>(n);
+        let words: Vec<i128> = if k == 4 {
+            let mut big = m.vec_znx_big_alloc(cols, size);
+            m.vec_znx_big_add_normal(base2k, &mut big, col, noise, &mut src);
+            let word = std::mem::size_of::<<BE as Backend>::ScalarBig>();
+            let b: &[u8] = big.data().as_ref();
+            // (the allocation may be rounded up: compare the n*cols*size words of the layout only)
+            let w: Vec<i128> = if word == 8 { b.chunks_exact(8).map(|c| i64::from_le_bytes(c.try_into().unwrap()) as i128).collect() }
+            else { b.chunks_exact(16).map(|c| i128::from_le_bytes(c.try_into().unwrap())).collect() };
+            w[..n * cols * size].to_vec()
+        } else {
+            let mut v = mk_vec_znx(n, cols, size, size, &vec![7i64; n * cols * size]);
+            match k {
+                1 => m.vec_znx_fill_uniform(base2k, &mut v, col, &mut src),
+                2 => m.vec_znx_fill_normal(base2k, &mut v, col, noise, &mut src),
+                _ => m.vec_znx_add_normal(base2k, &mut v, col, noise, &mut src),
+            }
+            dump_vec_znx(&v).into_iter().map(|x| x as i128).collect()
+        };
+        let nxt: [u8; 32] = src.new_seed();
+        (words, nxt.iter().map(|b| *b as i128).collect())
+    })
+}
+
 pub fn exec(r: &Rec) -> Out {
+    if r.code >= 300000 {
+        let (k, p) = (r.code - 300000, r.ps.clone());
+        return guard(move || {
+            let runs: Vec<(Vec<i128>, Vec<i128>)> = (1..=4i128).map(|be| sample(k, be, &p)).collect();
+            let mut flags: Vec<i128> = (1..4).map(|i| (runs[i].0 == runs[0].0) as i128).collect();
+            flags.extend((1..4).map(|i| (runs[i].1 == runs[0].1) as i128));
+            vec![flags]
+        });
+    }
+    if r.code >= 200000 {
+        let c = r.code - 200000;
+        let outs: Vec<Out> = [3i128, 4].iter().map(|be| { let mut ps = r.ps.clone(); ps[0] = *be; base_exec(&Rec::new(c, ps, r.vs.clone())) }).collect();
+        return match (&outs[0], &outs[1]) {
+            (Ok(a), Ok(b)) => { let mut o = a.clone(); o.push(vec![(a == b) as i128]); Ok(o) }
+            (Err(e), Err(_)) => Err(e.clone()),
+            _ => Ok(vec![vec![0]]),
+        };
+    }
     let c = r.code - 100000;
     let mut outs: Vec<Out> = Vec::new();
     for be in 1..=4i128 {
@@ -46,8 +106,27 @@ pub fn generate(tier: &str, seed: u64) -> Vec<Rec> {
     // big-accumulator records (9101..9116) carry a domain tag at ps[16]: only the common-domain ones (0) are comparable across families
     base.extend(c09::generate(tier, seed.wrapping_add(9)).into_iter().filter(|r| !(9100..9200).contains(&r.code) || r.ps[16] == 0));
     // DFT-domain ops: force the FFT64 magnitude domain for every record (be = 1 at generation time)
-    base.extend(c07::generate(tier, seed.wrapping_add(7)).into_iter().filter(|r| r.code < 7100 && r.ps[0] <= 2));
-    base.into_iter().map(|r| { let mut ps = r.ps.clone(); ps[0] = 0; Rec::new(100000 + r.code, ps, r.vs) }).collect()
+    base.extend(c07::generate(tier, seed.wrapping_add(7)).into_iter().filter(|r| (7000..7100).contains(&r.code) && r.ps[0] <= 2));
+    let mut out: Vec<Rec> = base.into_iter().map(|r| { let mut ps = r.ps.clone(); ps[0] = 0; Rec::new(100000 + r.code, ps, r.vs) }).collect();
+    // NTT120 family only: i128 big-accumulator operands (normalisers generated for be >= 3, big ring operations outside the common domain)
+    let fam8 = c08::generate(tier, seed.wrapping_add(8)).into_iter().filter(|r| (8201..8300).contains(&r.code) && r.ps[0] >= 3);
+    let fam9 = c09::generate(tier, seed.wrapping_add(9)).into_iter().filter(|r| (9100..9200).contains(&r.code) && r.ps[16] != 0);
+    out.extend(fam8.chain(fam9).map(|r| { let mut ps = r.ps.clone(); ps[0] = 3; Rec::new(200000 + r.code, ps, r.vs) }));
+    // samplers: same seed on every backend; tight admissible bounds make the rejection loop run
+    let mut rng = Rng::new(seed ^ 0x5A);
+    let reps = if tier == "thorough" { 1200 } else { 300 };
+    for it in 0..reps {
+        let k = 1 + (it % 4) as i64;
+        let n = rng.pick(&[1usize, 2, 4, 8, 16, 64, 256, 256]);
+        let cols = rng.range(1, 3); let size = rng.range(1, 4); let col = rng.below(cols as u64) as i128;
+        let base2k = rng.range(2, 52);
+        // k a multiple of the radix in half of the cases: the sampler's scale is then 1 and a tight bound such as
+        // 3.2 or 1.0 puts a visible share of the samples into the rejection window
+        let nk = if it % 2 == 0 { base2k * rng.range(1, size) } else { rng.range(1, size * base2k) };
+        let (sigma, bound) = rng.pick(&[(3200i128, 3200i128), (3200, 19200), (1000, 1000), (1000, 1400), (3200, 3700), (8000, 8100), (2500, 15000)]);
+        out.push(Rec::new(300000 + k, vec![0, n as i128, cols as i128, size as i128, col, base2k as i128, nk as i128, sigma, bound, rng.next() as i128], vec![]));
+    }
+    out
 }
 
 fn main() { poulpy_verif_harness::run_main(generate, exec) }
